@@ -8,6 +8,8 @@
 #include <string>
 #include <vector>
 #include <map>
+#include <cerrno>
+#include <cstdint>
 
 namespace c11m
 {
@@ -361,6 +363,32 @@ namespace c11m
       m.text = splice(b, b, blk); m.kind = kind; m.note = "duplicated <" + elem + "> block of line " + std::to_string(lineno(li));
       return true;
     }
+    // a whole child block removed (declared size without the data)
+    bool s_drop_block()
+    {
+      static const char* names[] = {"Points", "Params", "Vertices", "Topology", "Mapping", "Triangles", "Attribute", "Patch"};
+      std::vector<int> cand; for(auto& n : names) for(int o : find_open(n)) cand.push_back(o);
+      if(cand.empty()) return false;
+      int li = pick(cand); int te = term_of(li); if(te < 0) return false;
+      const std::string& n = d.lines[li].name;
+      m.text = splice(d.lines[li].beg, std::min(d.text.size(), d.lines[te].end + 1), "");
+      m.kind = "drop_block:" + n; m.note = "removed <" + n + "> block of lines " + std::to_string(lineno(li)) + "-" + std::to_string(lineno(te));
+      m.must_reject = (n == "Points" || n == "Vertices" || n == "Topology" || n == "Mapping" || n == "Triangles");
+      return true;
+    }
+    // control point count of a Bezier point line far beyond the tokens on the line
+    bool s_bezier_ctrl()
+    {
+      std::vector<int> cand; for(int o : find_open("Points")) { auto c = content_of(o); for(std::size_t i = 1; i < c.size(); ++i) cand.push_back(c[i]); }
+      if(cand.empty()) return false;
+      int li = pick(cand); const Line& l = d.lines[li];
+      auto tk = tokens(d.text, l.beg, l.end); if(tk.empty()) return false;
+      std::string rep = r.pick({"9223372036854775807", "4611686018427387904", "2147483648", "7", "18446744073709551615"});
+      bool whole = r.coin(0.5);
+      m.text = whole ? splice(tk.front().beg, tk.back().end, rep) : splice(tk[0].beg, tk[0].end, rep);
+      m.kind = "bezier_ctrl_count"; m.note = "line " + std::to_string(lineno(li)) + " in <Points>: control point count -> " + rep + (whole ? " (alone on the line)" : ""); m.must_reject = true;
+      return true;
+    }
     bool s_dup_chart() { return dup_block("Chart", "dup_chart"); }
     bool s_dup_part() { return dup_block("MeshPart", "dup_part"); }
     bool s_dup_mesh() { return dup_block("Mesh", "dup_mesh"); }
@@ -531,6 +559,121 @@ namespace c11m
     return false;
   }
 
+  // how 'istream >> unsigned long' (String::parse(Index&)) reads a token: 0 = no number, 1 = value, 2 = negative (wraps
+  // to a huge value), 3 = overflow (fails)
+  inline int prefix_index(const std::string& s, unsigned long long& v)
+  {
+    std::size_t i = 0; bool neg = false;
+    if(i < s.size() && (s[i] == '+' || s[i] == '-')) { neg = (s[i] == '-'); ++i; }
+    std::size_t j = i; while(j < s.size() && s[j] >= '0' && s[j] <= '9') ++j;
+    if(j == i) return 0;
+    errno = 0;
+    v = std::strtoull(s.substr(i, j - i).c_str(), nullptr, 10);
+    if(errno == ERANGE) return 3;
+    return neg ? (v == 0 ? 1 : 2) : 1;
+  }
+
+  inline bool attr_index(const Attr* a, unsigned long long& x)
+  {
+    if(a == nullptr) return false;
+    std::string v = a->val; while(!v.empty() && is_ws(v[0])) v.erase(v.begin());
+    return prefix_index(v, x) == 1;
+  }
+
+  // input-derived tags naming the structural fact that a known finding depends on
+  inline void input_tags(const Doc& d, std::vector<std::string>& tags)
+  {
+    if(has_dup_chart_name(d)) tags.push_back("dup_chart_name");
+    // root shape dimension
+    int sdim = 0;
+    std::vector<unsigned long long> msz;
+    for(auto& l : d.lines)
+    {
+      if(l.kind != L_OPEN) continue;
+      if(sdim == 0) if(const Attr* a = l.attr("mesh")) { std::size_t p = a->val.rfind(':'); if(p != std::string::npos && p >= 1) sdim = a->val[p - 1] - '0'; }
+      if(l.name == "Mesh" && msz.empty()) if(const Attr* a = l.attr("size")) for(auto& t : tokens(d.text, a->vbeg, a->vend)) { unsigned long long x = 0; if(to_u64(d.text.substr(t.beg, t.end - t.beg), x)) msz.push_back(x); }
+    }
+    bool map_dim = false, map_idx = false, tri_idx = false, attr_dim = false, bez_ori = false, neg_size = false, nonmanifold = false, topo_parent = false;
+    std::map<std::pair<int, std::pair<unsigned long long, unsigned long long>>, int> edge_use;
+    for(std::size_t i = 0; i < d.lines.size(); ++i)
+    {
+      const Line& l = d.lines[i];
+      if(l.kind == L_OPEN || l.kind == L_CLOSED)
+      {
+        if(l.name == "Mapping") { unsigned long long x = 0; if(attr_index(l.attr("dim"), x) && sdim > 0 && x == (unsigned long long)(sdim + 1)) map_dim = true; }
+        if(l.name == "Attribute") if(const Attr* a = l.attr("dim")) { unsigned long long x = 0; std::string v = a->val; while(!v.empty() && is_ws(v[0])) v.erase(v.begin()); int pr = prefix_index(v, x); if(pr == 2) x = 0ull - x; if((pr == 1 || pr == 2) && x != 0 && std::int32_t(std::uint32_t(x)) <= 0) attr_dim = true; }
+        if(l.name == "Bezier") if(const Attr* a = l.attr("orientation")) { if(a->val != "1" && a->val != "-1") bez_ori = true; }
+        if(l.name == "Partition") if(const Attr* a = l.attr("size")) if(a->val.find('-') != std::string::npos) neg_size = true;
+        if(l.name == "MeshPart") if(const Attr* a = l.attr("topology")) if(a->val.find("parent") != std::string::npos) topo_parent = true;
+      }
+      if(l.kind == L_CONTENT && l.parent >= 0)
+      {
+        const Line& p = d.lines[std::size_t(l.parent)];
+        if(p.name == "Mapping" || p.name == "Triangles")
+        {
+          unsigned long long bound = ~0ull;
+          if(p.name == "Mapping") { unsigned long long x = 0; if(attr_index(p.attr("dim"), x) && x < msz.size()) bound = msz[x]; }
+          else if(p.parent >= 0) { unsigned long long x = 0; if(attr_index(d.lines[std::size_t(p.parent)].attr("verts"), x)) bound = x; }
+          std::vector<unsigned long long> tri;
+          for(auto& t : tokens(d.text, l.beg, l.end))
+          {
+            std::string s = d.text.substr(t.beg, t.end - t.beg); unsigned long long x = 0;
+            int pr = prefix_index(s, x);
+            bool oob = (pr == 2) || (pr == 1 && x >= bound);
+            if(oob) { if(p.name == "Mapping") map_idx = true; else tri_idx = true; }
+            if(pr == 1) tri.push_back(x);
+          }
+          if(p.name == "Triangles" && tri.size() == 3)
+            for(int e = 0; e < 3; ++e) { auto a = tri[std::size_t(e)], b = tri[std::size_t((e + 1) % 3)]; if(++edge_use[{l.parent, {std::min(a, b), std::max(a, b)}}] > 2 || a == b) nonmanifold = true; }
+        }
+      }
+    }
+    if(map_dim) tags.push_back("mapping_dim_oob");
+    if(map_idx) tags.push_back("mapping_index_oob");
+    if(tri_idx) tags.push_back("surfmesh_index_oob");
+    if(attr_dim) tags.push_back("attr_dim_not_int");
+    if(bez_ori) tags.push_back("bezier_orientation_odd");
+    if(neg_size) tags.push_back("partition_size_negative");
+    if(nonmanifold) tags.push_back("surfmesh_nonmanifold");
+    // Bezier charts without any point line / with an absurd control point count
+    for(std::size_t i = 0; i < d.lines.size(); ++i)
+    {
+      const Line& l = d.lines[i];
+      if(l.kind == L_OPEN && l.name == "Bezier")
+      {
+        bool pts = false;
+        for(std::size_t j = i + 1; j < d.lines.size(); ++j)
+        {
+          const Line& q = d.lines[j];
+          if(q.kind == L_TERM && q.name == "Bezier") break;
+          if(q.kind == L_CONTENT && q.parent >= 0 && d.lines[std::size_t(q.parent)].name == "Points") { pts = true; break; }
+        }
+        if(!pts) { tags.push_back("bezier_without_points"); break; }
+      }
+    }
+    for(auto& l : d.lines)
+      if(l.kind == L_CONTENT && l.parent >= 0 && d.lines[std::size_t(l.parent)].name == "Points")
+      {
+        auto tk = tokens(d.text, l.beg, l.end); unsigned long long x = 0;
+        if(!tk.empty()) { int pr = prefix_index(d.text.substr(tk[0].beg, tk[0].end - tk[0].beg), x); if(pr == 2 || (pr == 1 && x >= (1ull << 31))) { tags.push_back("bezier_ctrl_overflow"); break; } }
+      }
+    if(topo_parent) tags.push_back("topology_parent");
+    // a Partition none of whose patches lists an element
+    for(std::size_t i = 0; i < d.lines.size(); ++i)
+    {
+      const Line& l = d.lines[i];
+      if((l.kind != L_OPEN && l.kind != L_CLOSED) || l.name != "Partition") continue;
+      bool any = false;
+      if(l.kind == L_OPEN) for(std::size_t j = i + 1; j < d.lines.size(); ++j)
+      {
+        const Line& q = d.lines[j];
+        if(q.kind == L_TERM && q.name == "Partition") break;
+        if(q.kind == L_CONTENT) { any = true; break; }
+      }
+      if(!any) { tags.push_back("partition_without_elements"); break; }
+    }
+  }
+
   // one mutant of 'base'; 'other' = another valid text (for splices)
   inline void mutate(const Doc& base, const Doc& other, vh::Rng& r, Mutant& m)
   {
@@ -560,6 +703,7 @@ namespace c11m
         case 15: ok = e.s_break_close(); break;
         case 16: ok = e.s_dup_chart(); break;
         case 17: ok = r.coin() ? e.s_dup_part() : e.s_dup_mesh(); break;
+        case 18: ok = r.coin(0.7) ? e.s_drop_block() : e.s_bezier_ctrl(); break;
         default: ok = e.s_attr_value(); break;
         }
       }
